@@ -276,7 +276,7 @@ def g4(chk, op):
                 if isinstance(s2, ast.If) and any(isinstance(x, ast.Return) for x in ast.walk(s2)):
                     bad.append(f"return under `if {short(s2.test, 40)}`")
             chk.require(not bad, "C07-G7", where, "a tree decoded from the cache is returned as it is (no further validation that could discard it)",
-                        f"after the cache lookup succeeded, {bad[0]} can still send open_image down the parse path: a usable cache is discarded and the line records are re-read",
+                        f"after the cache lookup succeeded, {bad[0] if bad else ''} can still send open_image down the parse path: a usable cache is discarded and the line records are re-read",
                         key="open_image:hit-unconditional", sample={"between lookup and return": [short(x, 50) for x in after]})
         else:
             chk.ok("C07-G7", where, "the result of read_cache is returned directly")
